@@ -129,8 +129,9 @@ func init() {
 							c.Add("transitions", rep.Steps)
 							c.Add("branching_points", rep.Points)
 							c.Add("traces", int64(rep.Executions))
-							c.Add("evaluations_override", int64(rep.Executions))
+							c.Add("evaluations_extra", int64(rep.Executions))
 							c.Add("executions_with_blocking", int64(rep.WithBlocking))
+							c.Add("distinct_nontrivial_extra", int64(rep.WithBlocking))
 							c.Distinct("nontrivial", id)
 							for o := range rep.Outcomes {
 								c.Distinct("outcomes", d.id+"|"+o)
